@@ -241,9 +241,26 @@ def signature(g, model):
     return out, cfgs, dict(g.removed), sorted(map(tuple, g.common_tandems))
 
 
+def boundary_insertions(m):
+    """Written insertions whose two flanking RefSeq bases lie in different regions: their key position (the
+    genome base left of the insertion) falls into one region on '+' and into the other on '-'."""
+    out = []
+    for rec in m.alleles.values():
+        for p, o in rec["variants"]:
+            if o.startswith("ins") and (p - 1) in m.r2c and p in m.r2c:
+                a, b = m.region_of(m.r2c[p - 1], 0), m.region_of(m.r2c[p], 0)
+                if a != b:
+                    out.append(f"{p}{o}")
+    return sorted(set(out))
+
+
 def check_builds(res, g1, m1, g2, m2, desc):
     s1, c1, r1, t1 = signature(g1, m1)
     s2, c2, r2, t2 = signature(g2, m2)
+    bmech = None
+    if m1.strand != m2.strand and boundary_insertions(m1):
+        bmech = "boundary-insertion-region-depends-on-strand"
+        desc = dict(desc, boundary_insertions=boundary_insertions(m1))
     # variants unmappable in one build are removed from both sides
     drop = set()
     for m, g in ((m1, g1), (m2, g2)):
@@ -260,12 +277,12 @@ def check_builds(res, g1, m1, g2, m2, desc):
     if drop:
         res.count("variants_unmappable_in_a_build", len(drop))
     res.check("build_independent", set(s1) == set(s2), "major allele names differ between builds",
-              only_first=sorted(set(s1) - set(s2)), only_second=sorted(set(s2) - set(s1)), **desc)
+              mech=bmech, only_first=sorted(set(s1) - set(s2)), only_second=sorted(set(s2) - set(s1)), **desc)
     if not drop:
         diff = [an for an in s1 if an in s2 and s1[an] != s2[an]]
         res.check("build_independent", not diff,
                   "grouping / variant content / configuration of major alleles differs between builds",
-                  alleles=diff[:5], first={a: s1[a] for a in diff[:2]}, second={a: s2[a] for a in diff[:2]}, **desc)
+                  mech=bmech, alleles=diff[:5], first={a: s1[a] for a in diff[:2]}, second={a: s2[a] for a in diff[:2]}, **desc)
         res.check("build_independent", r1 == r2, "alias table differs between builds", **desc)
     else:
         a1, a2 = strip(s1), strip(s2)
@@ -274,7 +291,7 @@ def check_builds(res, g1, m1, g2, m2, desc):
                   alleles=diff[:5], **desc)
     res.check("build_independent", set(c1) == set(c2) and all(
         c1[k]["kind"] == c2[k]["kind"] and c1[k]["alleles"] == c2[k]["alleles"] for k in c1 if k in c2),
-        "structural configurations (names, kinds, alleles) differ between builds", **desc)
+        "structural configurations (names, kinds, alleles) differ between builds", mech=bmech, **desc)
     # vectors on regions non-empty in both builds
     for k in c1:
         if k not in c2:
